@@ -103,13 +103,15 @@ def tree_tasks(cfg, alphabet_name, depth, visitor, split=2, batch=1):
 
 def standard_plan(ctx, visitor, depths_quick=(8, 7, 6, 5, 5), depths_thorough=(10, 9, 8, 7, 6),
                   boxes=("B0",), alphabets_fixed=("A013",), alphabet_pool=("A01", "Am201", "A01e6", "A3210", "A001"),
-                  n_seeded=2, long_runs=True, refine_ops=False, deep_runs=False, rs_thorough=(1.05, 1.5, 2.0, 3.5, 8.0)):
+                  n_seeded=2, long_runs=True, refine_ops=False, deep_runs=False, rs_thorough=(1.05, 1.5, 2.0, 3.5, 8.0),
+                  n_seeded_thorough=None):
     """the plan of DESIGN C02: trees per (N, r, alphabet) + deviation-bounded long runs"""
     tasks = []
     th = ctx.thorough
     depths = depths_thorough if th else depths_quick
     rs = tuple(rs_thorough) if th else (2.0, 3.5)
-    alphs = list(alphabets_fixed) + (list(alphabet_pool) if th and n_seeded >= len(alphabet_pool) else ctx.pick(alphabet_pool, n_seeded))
+    alphs = list(alphabets_fixed) + (list(alphabet_pool) if th and n_seeded_thorough is None else
+                                    ctx.pick(alphabet_pool, n_seeded_thorough if th else n_seeded))
     for N in (1, 2, 3, 4, 5):
         for r in rs:
             for a in alphs:
